@@ -114,7 +114,7 @@ fn sample_json(spec: &RunSpec, r: &RunResult, seed: u64) -> serde_json::Value {
         "threads": spec.threads.iter().map(|t| serde_json::json!({
             "crash_on_fault": t.crash_on_fault,
             "ops": t.ops.iter().map(|o| {
-                let q = match &o.call { Call::Array{q}|Call::ArrayInto{q,..} => format!(" q{:?}{:?}={:?}", q.ty, q.shape, q.xs.iter().map(|f| f.0).collect::<Vec<_>>()), Call::Scalar{x,y}|Call::Interp{x,y}|Call::InterpInto{x,y,..}|Call::IndexLeftOf{x,y}|Call::InRange{x,y} => format!(" x={:?} y={:?}", x.0, y.0), Call::IndexPoint{i,j} => format!(" i={i} j={j}"), Call::Cow | Call::PrivBuild | Call::PrivSend | Call::PrivReap => String::new(), Call::PrivQuery{inner} => format!(" inner={}", inner.name()), Call::Sibling{strat,x,y} => format!(" {:?} x={:?} y={:?}", strat, x.0, y.0) };
+                let q = match &o.call { Call::Array{q}|Call::ArrayInto{q,..} => format!(" q{:?}{:?}={:?}", q.ty, q.shape, q.xs.iter().map(|f| f.0).collect::<Vec<_>>()), Call::Scalar{x,y}|Call::Interp{x,y}|Call::InterpInto{x,y,..}|Call::IndexLeftOf{x,y}|Call::InRange{x,y} => format!(" x={:?} y={:?}", x.0, y.0), Call::IndexPoint{i,j} => format!(" i={i} j={j}"), Call::Cow | Call::PrivBuild | Call::PrivSend | Call::PrivReap => String::new(), Call::PrivQuery{inner} => format!(" inner={}", inner.name()), Call::Repeat{inner,times} => format!(" {} x {}", times, inner.name()), Call::Sibling{strat,x,y} => format!(" {:?} x={:?} y={:?}", strat, x.0, y.0) };
                 let b = match &o.call { Call::InterpInto{buf,..}|Call::ArrayInto{buf,..} => format!(" buf{:?}/{:?}{}", buf.shape, buf.lay, if buf.exact {""} else {" (wrong)"}), _ => String::new() };
                 format!("s{}.{}{}{}{}", o.slot, o.call.name(), q, b, if o.plan.is_empty() { String::new() } else { format!(" plan={:?}", o.plan) })
             }).collect::<Vec<_>>() })).collect::<Vec<_>>(),
@@ -169,6 +169,9 @@ pub fn run_block_c17(verif_seed: u64, block: u64, n_runs: usize, opts: &BlockOpt
             crate::gen::gen_elem_sweep(seed)
         } else if run % 16 == 11 {
             crate::gen::gen_migration(seed)
+        } else if run == 77 {
+            // once per block: a volume scenario (the same call hundreds / tens of thousands of times)
+            crate::gen::gen_volume(seed)
         } else {
             gen_run(seed, Mode::C17)
         };
@@ -269,6 +272,15 @@ pub fn build_cases(base: &SlotCfg, r: &mut Rng) -> Vec<BuildCase> {
             a[p] = Fb(f64::NAN);
             set(&mut c, a);
             out.push(BuildCase { label: format!("{name} axis: NaN at {p}"), cfg: c, valid: false, either: false });
+        }
+        // a tie made of the two zeros: -0.0 == +0.0, whatever their bit patterns say (in both orders)
+        for p in 0..n.saturating_sub(1) {
+            for (lo, hi, what) in [(-0.0f64, 0.0f64, "-0.0, +0.0"), (0.0, -0.0, "+0.0, -0.0")] {
+                let mut c = cfg.clone();
+                let a: Vec<Fb> = (0..n).map(|i| if i == p { Fb(lo) } else if i == p + 1 { Fb(hi) } else { Fb(i as f64 - p as f64) }).collect();
+                set(&mut c, a);
+                out.push(BuildCase { label: format!("{name} axis: signed-zero tie ({what}) at {p}"), cfg: c, valid: false, either: false });
+            }
         }
         {
             let mut c = cfg.clone();
